@@ -335,7 +335,7 @@ def run_case(case, tier):
             viol.append({"cls": "empty-input-not-valueerror", "msg": "input without usable atoms: %r" % (run.exc,)})
         return util.finish(case, viol, counts, classes + ["emptied"], False, desc)
     text = pdbio.dump(recs)
-    run = obs.run_single(text)
+    run = obs.run_single(text, util.neutral_options(rng, classes=classes))
     counts["pipeline_runs"] = 1
     counts["truncations"] = 1
     desc.update({"atoms_left": len(pdbio.atoms(recs)), "deleted_n": len(deleted), "exc": run.exc})
